@@ -4,7 +4,8 @@ import QmiModel.Model.Config
 
 * `Admits τ j v`: data `j` is admitted by type `τ` and converts to `v` (documented conversions only:
   integer→float, list→tuple, defaults filled in). Independent of the parser: no path, no error order.
-* `Offends τ j r k`: the item at relative path `r` of `j` is an offending item of kind `k`.
+* `Offends τ j r k`: the item at relative path `r` of `j` is an offending item of kind `k`
+  (type mismatch / missing required field / unknown field).
 -/
 namespace QmiModel.Config
 
@@ -61,7 +62,7 @@ def headOk : Ty → PV → Bool
   | .any, _ => true
   | .opt t, j => (match j with | .none => true | _ => false) || headOk t j
   | .int, j => match j with | .int _ => true | .bool _ => true | _ => false
-  | .float, j => match j with | .flt _ => true | .fltOfInt _ => true | .int _ => true | .bool _ => true | _ => false
+  | .float, j => match j with | .flt _ => true | .fltOfInt _ => true | .int n => !floatOverflow n | .bool _ => true | _ => false
   | .str, j => match j with | .str _ => true | _ => false
   | .bool, j => match j with | .bool _ => true | _ => false
   | .list _, j => match j with | .list _ => true | _ => false
@@ -70,53 +71,40 @@ def headOk : Ty → PV → Bool
   | .dict _, j => match j with | .dict _ => true | _ => false
   | .struct _ _, j => match j with | .dict _ => true | .inst _ _ => true | _ => false
 
-/-- what goes wrong at an item -/
-inductive ErrKind where
-  | cfg (k : CfgKind)     -- the three configuration errors of the statement
-  | nonSized              -- `len()` of a non-sized value in a fixed-length tuple field  (escapes as TypeError)
-  | hugeInt               -- an integer beyond the float range in a float field          (escapes as OverflowError)
-  deriving DecidableEq, Repr
-
-def mkExc : ErrKind → Path → PyExc
-  | .cfg k, q => .config k q
-  | .nonSized, _ => .typeError
-  | .hugeInt, _ => .overflowError
-
 /-- `Offends τ j r k`: following the relative path `r` through data `j` (typed `τ`) leads to an offending
-item of kind `k`: a value whose shape the declared type does not admit, a required field that is missing,
-an unknown field — or one of the two escaping classes. -/
-inductive Offends : Ty → PV → Path → ErrKind → Prop
-  | mismatch {τ : Ty} {j : PV} : headOk τ j = false → Offends τ j [] (.cfg .mismatch)
+item of kind `k`: a value whose shape the declared type does not admit (this includes a value without
+`len()` in a fixed-length tuple field and an integer beyond the float range in a float field), a required
+field that is missing, an unknown field. -/
+inductive Offends : Ty → PV → Path → CfgKind → Prop
+  | mismatch {τ : Ty} {j : PV} : headOk τ j = false → Offends τ j [] .mismatch
   | missing {name n : Str} {t : Ty} {fs : List Field} {kvs : List (Str × PV)} :
-      (n, t, Option.none) ∈ fs → assoc n kvs = .none → Offends (.struct name fs) (.dict kvs) [.field n] (.cfg .missing)
+      (n, t, Option.none) ∈ fs → assoc n kvs = .none → Offends (.struct name fs) (.dict kvs) [.field n] .missing
   | unknown {name k : Str} {fs : List Field} {kvs : List (Str × PV)} :
-      k ∈ keysOf kvs → k ∉ fieldNames fs → Offends (.struct name fs) (.dict kvs) [.field k] (.cfg .unknown)
+      k ∈ keysOf kvs → k ∉ fieldNames fs → Offends (.struct name fs) (.dict kvs) [.field k] .unknown
   | missingInst {name c n : Str} {t : Ty} {fs : List Field} {ifs : List (Str × PV)} :
       (n, t, Option.none) ∈ fs → assoc n (asdictK ifs) = .none →
-      Offends (.struct name fs) (.inst c ifs) [.field n] (.cfg .missing)
+      Offends (.struct name fs) (.inst c ifs) [.field n] .missing
   | unknownInst {name c k : Str} {fs : List Field} {ifs : List (Str × PV)} :
-      k ∈ keysOf (asdictK ifs) → k ∉ fieldNames fs → Offends (.struct name fs) (.inst c ifs) [.field k] (.cfg .unknown)
-  | nonSized {ts : List Ty} {j : PV} : pyLen j = .none → Offends (.tupleFix ts) j [] .nonSized
-  | hugeInt {n : Int} : floatOverflow n = true → Offends .float (.int n) [] .hugeInt
-  | opt {t : Ty} {j : PV} {r : Path} {k : ErrKind} : j ≠ .none → Offends t j r k → Offends (.opt t) j r k
-  | list {t : Ty} {xs : List PV} {i : Nat} {x : PV} {r : Path} {k : ErrKind} :
+      k ∈ keysOf (asdictK ifs) → k ∉ fieldNames fs → Offends (.struct name fs) (.inst c ifs) [.field k] .unknown
+  | opt {t : Ty} {j : PV} {r : Path} {k : CfgKind} : j ≠ .none → Offends t j r k → Offends (.opt t) j r k
+  | list {t : Ty} {xs : List PV} {i : Nat} {x : PV} {r : Path} {k : CfgKind} :
       xs[i]? = some x → Offends t x r k → Offends (.list t) (.list xs) (.idx i :: r) k
-  | tupleVarL {t : Ty} {xs : List PV} {i : Nat} {x : PV} {r : Path} {k : ErrKind} :
+  | tupleVarL {t : Ty} {xs : List PV} {i : Nat} {x : PV} {r : Path} {k : CfgKind} :
       xs[i]? = some x → Offends t x r k → Offends (.tupleVar t) (.list xs) (.idx i :: r) k
-  | tupleVarT {t : Ty} {xs : List PV} {i : Nat} {x : PV} {r : Path} {k : ErrKind} :
+  | tupleVarT {t : Ty} {xs : List PV} {i : Nat} {x : PV} {r : Path} {k : CfgKind} :
       xs[i]? = some x → Offends t x r k → Offends (.tupleVar t) (.tuple xs) (.idx i :: r) k
-  | tupleFixL {ts : List Ty} {xs : List PV} {i : Nat} {t : Ty} {x : PV} {r : Path} {k : ErrKind} :
+  | tupleFixL {ts : List Ty} {xs : List PV} {i : Nat} {t : Ty} {x : PV} {r : Path} {k : CfgKind} :
       xs.length = ts.length → ts[i]? = some t → xs[i]? = some x → Offends t x r k →
       Offends (.tupleFix ts) (.list xs) (.idx i :: r) k
-  | tupleFixT {ts : List Ty} {xs : List PV} {i : Nat} {t : Ty} {x : PV} {r : Path} {k : ErrKind} :
+  | tupleFixT {ts : List Ty} {xs : List PV} {i : Nat} {t : Ty} {x : PV} {r : Path} {k : CfgKind} :
       xs.length = ts.length → ts[i]? = some t → xs[i]? = some x → Offends t x r k →
       Offends (.tupleFix ts) (.tuple xs) (.idx i :: r) k
-  | dict {t : Ty} {kvs : List (Str × PV)} {key : Str} {x : PV} {r : Path} {k : ErrKind} :
+  | dict {t : Ty} {kvs : List (Str × PV)} {key : Str} {x : PV} {r : Path} {k : CfgKind} :
       (key, x) ∈ kvs → Offends t x r k → Offends (.dict t) (.dict kvs) (.key key :: r) k
-  | field {name n : Str} {t : Ty} {d : Option PV} {fs : List Field} {kvs : List (Str × PV)} {x : PV} {r : Path} {k : ErrKind} :
+  | field {name n : Str} {t : Ty} {d : Option PV} {fs : List Field} {kvs : List (Str × PV)} {x : PV} {r : Path} {k : CfgKind} :
       (n, t, d) ∈ fs → assoc n kvs = some x → Offends t x r k →
       Offends (.struct name fs) (.dict kvs) (.field n :: r) k
-  | fieldInst {name c n : Str} {t : Ty} {d : Option PV} {fs : List Field} {ifs : List (Str × PV)} {x : PV} {r : Path} {k : ErrKind} :
+  | fieldInst {name c n : Str} {t : Ty} {d : Option PV} {fs : List Field} {ifs : List (Str × PV)} {x : PV} {r : Path} {k : CfgKind} :
       (n, t, d) ∈ fs → assoc n (asdictK ifs) = some x → Offends t x r k →
       Offends (.struct name fs) (.inst c ifs) (.field n :: r) k
 
